@@ -123,6 +123,9 @@ def make_signer(spec, for_interest):
         return HmacSha256Signer('/k/hmac', hmac_key(int(spec[5:])))
     if spec == 'rsa':
         return Sha256WithRsaSigner('/k/rsa/KEY/1', key_der('rsa2048_0'))
+    if isinstance(spec, str) and spec.startswith('rsa:'):
+        # moduli whose bit length is not a multiple of eight (legal; a signature has ceil(bits / 8) octets)
+        return Sha256WithRsaSigner('/k/rsa/KEY/1', key_der(f'rsa{spec[4:]}_0'))
     if spec == 'ecdsa':
         return Sha256WithEcdsaSigner('/k/ec/KEY/1', key_der('ec256_0'))
     if isinstance(spec, str) and spec.startswith('ecdsa:'):
@@ -136,8 +139,8 @@ def make_signer(spec, for_interest):
     raise ValueError(spec)
 
 
-SIG_TYPE = {'digest': 0, 'hmac': 4, 'hmac:1': 4, 'hmac:63': 4, 'hmac:64': 4, 'hmac:65': 4, 'hmac:200': 4, 'rsa': 1, 'ecdsa': 3, 'ecdsa:224': 3, 'ecdsa:384': 3, 'ecdsa:521': 3, 'ed': 5, 'null': 200}
-SIG_KEYNAME = {'hmac': '/k/hmac', 'hmac:1': '/k/hmac', 'hmac:63': '/k/hmac', 'hmac:64': '/k/hmac', 'hmac:65': '/k/hmac', 'hmac:200': '/k/hmac', 'rsa': '/k/rsa/KEY/1', 'ecdsa': '/k/ec/KEY/1', 'ecdsa:224': '/k/ec/KEY/1', 'ecdsa:384': '/k/ec/KEY/1',
+SIG_TYPE = {'digest': 0, 'hmac': 4, 'hmac:1': 4, 'hmac:63': 4, 'hmac:64': 4, 'hmac:65': 4, 'hmac:200': 4, 'rsa': 1, 'rsa:1023': 1, 'rsa:1030': 1, 'ecdsa': 3, 'ecdsa:224': 3, 'ecdsa:384': 3, 'ecdsa:521': 3, 'ed': 5, 'null': 200}
+SIG_KEYNAME = {'hmac': '/k/hmac', 'hmac:1': '/k/hmac', 'hmac:63': '/k/hmac', 'hmac:64': '/k/hmac', 'hmac:65': '/k/hmac', 'hmac:200': '/k/hmac', 'rsa': '/k/rsa/KEY/1', 'rsa:1023': '/k/rsa/KEY/1', 'rsa:1030': '/k/rsa/KEY/1', 'ecdsa': '/k/ec/KEY/1', 'ecdsa:224': '/k/ec/KEY/1', 'ecdsa:384': '/k/ec/KEY/1',
                'ecdsa:521': '/k/ec/KEY/1', 'ed': '/k/ed/KEY/1'}
 
 # -- parameter menus --------------------------------------------------------------------------------
@@ -262,6 +265,9 @@ def space_asym(tier):
                 yield {'k': kind, 'name': ['a', 'K'], 'rep': 'list', 'p': 'default', 'plen': plen, 'signer': 'ecdsa', 'it': it}
         for plen in (0, 1, 100, 65536):
             yield {'k': kind, 'name': ['a'], 'rep': 'uri', 'p': 'default', 'plen': plen, 'signer': 'rsa'}
+        for plen in (0, 100, 121, 122, 123, 124, 125, 126):       # (around the payload length that moves the packet across 253 octets)
+            for bits in ('1023', '1030'):
+                yield {'k': kind, 'name': ['a'], 'rep': 'uri', 'p': 'default', 'plen': plen, 'signer': 'rsa:' + bits}
         # the other curves the signer accepts: the reserved signature size depends on the curve (P-521 is not a multiple of 8 bits)
         for curve in ('224', '384', '521'):
             for plen in (0, 90, 100, 110, 120, 252):
@@ -271,7 +277,92 @@ def space_asym(tier):
             yield {'k': kind, 'name': ['a', 'P'] if kind == 'I' else ['a'], 'rep': 'list', 'p': p, 'plen': 3, 'signer': 'ecdsa', 'it': p}
 
 
-SPACES = {'namelen': space_name_lengths, 'names': space_names, 'params': space_params, 'lengths': space_lengths, 'shrink': space_shrink,
+# -- histories: one parameter object kept by the application and adjusted between packets; names parsed and edited in between ----------
+R_METAS = [(None, None, None), (0, None, None), (2, 1000, None), (0, None, 'seg'), (256, 2 ** 32, 'empty'), (0, 0, 'seg')]
+R_IPS = [dict(can_be_prefix=False, must_be_fresh=False, lifetime=4000, hop_limit=None, fh=0),
+         dict(can_be_prefix=True, must_be_fresh=True, lifetime=None, hop_limit=5, fh=0),
+         dict(can_be_prefix=False, must_be_fresh=True, lifetime=2 ** 32, hop_limit=None, fh=1),
+         dict(can_be_prefix=True, must_be_fresh=False, lifetime=255, hop_limit=255, fh=2),
+         dict(can_be_prefix=False, must_be_fresh=False, lifetime=0, hop_limit=0, fh=0)]
+
+
+def space_reuse(tier):
+    for kind, menu in (('D', R_METAS), ('I', R_IPS)):
+        for n in (2, 3):
+            for seq in itertools.product(range(len(menu)), repeat=n):
+                for rep in ('uri', 'list'):
+                    for plen in ((None, 3) if n == 2 or tier == 'thorough' else (3,)):
+                        yield {'k': kind, 'hist': list(seq), 'rep': rep, 'plen': plen, 'name': ['a', 'K'], 'signer': 'none', 'p': 'default'}
+
+
+def run_reuse(case):
+    """The application keeps one MetaInfo / InterestParam object and one name, assigns the fields it wants before each packet, and in
+    between parses the name text itself and appends to the list it got.  Every packet must be the packet a fresh object with the
+    same values gives, and must read back (strict reader) as those values under that name."""
+    kind, toks, plen = case['k'], case['name'], case['plen']
+    viol = []
+    payload = None if plen is None else b'p' * plen
+    exp_comps = [comp_wire(t) for t in toks]
+    uri = name_repr(toks, 'uri')
+
+    def bad(clause, what):
+        viol.append((f'C01|{kind}|reuse|{clause}', what))
+
+    def fbv(tok):
+        return {None: None, 'empty': b'', 'seg': bytes(enc.Component.from_segment(7))}[tok]
+    shared = enc.MetaInfo() if kind == 'D' else enc.InterestParam()
+    kept_name = name_repr(toks, case['rep'])
+    outs = []
+    with owned_random(('c01r', tuple(case['hist']))):
+        for step, idx in enumerate(case['hist']):
+            try:
+                if kind == 'D':
+                    ct, fp, fb = R_METAS[idx]
+                    shared.content_type, shared.freshness_period, shared.final_block_id = ct, fp, fbv(fb)
+                    wire = bytes(enc.make_data(kept_name, shared, payload))
+                    fresh = bytes(enc.make_data(name_repr(toks, 'list'), enc.MetaInfo(content_type=ct, freshness_period=fp, final_block_id=fbv(fb)), payload))
+                    ref = ns.read_data(wire, minimal=True)
+                    got = ref['meta'] or {'content_type': None, 'freshness': None, 'final_block_id': None}
+                    want = {'content_type': ct, 'freshness': fp, 'final_block_id': fbv(fb)}
+                    if got != want or ref['content'] != payload:
+                        bad('fields', f'history {case["hist"]} step {step + 1}: MetaInfo on the wire {got!r}, assigned {want!r} (content length '
+                                      f'{None if ref["content"] is None else len(ref["content"])})')
+                else:
+                    p = R_IPS[idx]
+                    shared.can_be_prefix, shared.must_be_fresh, shared.lifetime, shared.hop_limit = p['can_be_prefix'], p['must_be_fresh'], p['lifetime'], p['hop_limit']
+                    shared.nonce = 77
+                    shared.forwarding_hint = [list(x) for x in FH_MENU[p['fh']]]
+                    wire = bytes(enc.make_interest(kept_name, shared, payload))
+                    fresh = bytes(enc.make_interest(name_repr(toks, 'list'), enc.InterestParam(
+                        can_be_prefix=p['can_be_prefix'], must_be_fresh=p['must_be_fresh'], lifetime=p['lifetime'], hop_limit=p['hop_limit'], nonce=77,
+                        forwarding_hint=[list(x) for x in FH_MENU[p['fh']]]), payload))
+                    ref = ns.read_interest(wire, minimal=True)
+                    got = (ref['cbp'], ref['mbf'], ref['nonce'], ref['lifetime'], ref['hop_limit'], ref['fh'])
+                    want = (p['can_be_prefix'], p['must_be_fresh'], 77, p['lifetime'], p['hop_limit'], [[ts.tlv(8, c.encode()) for c in nm] for nm in FH_MENU[p['fh']]])
+                    if got != want:
+                        bad('fields', f'history {case["hist"]} step {step + 1}: parameters on the wire {got!r}, assigned {want!r}')
+                name_on_wire = ref['name'][:len(exp_comps)]
+                if name_on_wire != exp_comps or len(ref['name']) > len(exp_comps) + (1 if kind == 'I' and payload is not None else 0):
+                    bad('name', f'history {case["hist"]} step {step + 1}: name on the wire {hexl(ref["name"])}, given {hexl(exp_comps)}')
+                if wire != fresh:
+                    bad('differs-from-fresh-object', f'history {case["hist"]} step {step + 1}: the packet made with the kept object differs from the packet a fresh '
+                                                     f'object with the same values gives ({len(wire)} / {len(fresh)} octets)')
+                outs.append(hashlib.sha256(wire).hexdigest()[:12])
+            except ts.Malformed as e:
+                bad(f'malformed:{e.clause}', f'history {case["hist"]} step {step + 1}: emitted wire is not well-formed: {e}')
+                outs.append('malformed')
+            except Exception as e:  # noqa
+                bad(f'raises:{type(e).__name__}', f'history {case["hist"]} step {step + 1}: {type(e).__name__}: {e}')
+                outs.append('raises')
+            # between two packets: the application parses the name text and builds a longer name from the list it got
+            mine = enc.Name.from_str(uri)
+            mine.append(bytes(enc.Component.from_segment(step)))
+            mine2 = enc.Name.normalize(uri)
+            mine2 += [b'\x08\x01z']
+    return f'{kind}|reuse|n={len(case["hist"])}', viol, len(set(case['hist'])) > 1, {'wires': outs}
+
+
+SPACES = {'reuse': space_reuse, 'namelen': space_name_lengths, 'names': space_names, 'params': space_params, 'lengths': space_lengths, 'shrink': space_shrink,
           'asym': space_asym, 'sweep': space_full_sweep}
 CHUNK = 1500
 
@@ -463,7 +554,7 @@ def hexl(lst):
 def plan(tier, seed):
     units = []
     sizes = {}
-    names = ['names', 'namelen', 'params', 'lengths', 'shrink', 'asym'] + (['sweep'] if tier == 'thorough' else [])
+    names = ['names', 'namelen', 'params', 'lengths', 'shrink', 'asym', 'reuse'] + (['sweep'] if tier == 'thorough' else [])
     for sp in names:
         n = sum(1 for _ in SPACES[sp](tier))
         sizes[sp] = n
@@ -491,7 +582,7 @@ def unit(arg):
     env.__enter__()
     try:
         for case in gen:
-            key, viol, nontrivial, info = run_case(case)
+            key, viol, nontrivial, info = run_reuse(case) if 'hist' in case else run_case(case)
             acc.evaluations += 1
             acc.transitions += 2
             acc.state_count += 1
@@ -513,5 +604,5 @@ def unit(arg):
 
 def replay(case):
     with owned_env(clock=FixedClock(), seed=1):
-        key, viol, _, _ = run_case(case)
+        key, viol, _, _ = run_reuse(case) if 'hist' in case else run_case(case)
     return [{'sig': s, 'what': w} for s, w in viol]
